@@ -58,7 +58,16 @@ func ruleSibClose(c *Ctx) {
 			}
 			return false
 		}
-		cutErr := func(e *Edge) bool { return errNonNilEdge(info, e) }
+		// "an earlier close step failed": a local error variable is non-nil. An
+		// error-valued call such as ctx.Err() is a state test, not a failed step.
+		cutErr := func(e *Edge) bool {
+			if !errNonNilEdge(info, e) {
+				return false
+			}
+			at, _ := edgeAtom(info, e)
+			v, isV := identObj(info, at.X).(*types.Var)
+			return isV && !v.IsField()
+		}
 		for _, st := range []struct {
 			what string
 			pred func(*Node) bool
